@@ -6,6 +6,7 @@ import ast
 from ..absint import Const, Obj, Tup, explore, vkey
 from ..core import Unrecognised, Report
 from ..repo import chain, params, src, strip_docstring, calls, qualname, walk_no_nested
+from ..localroles import rename, discover, by_roles, cli_main, name_of, unique, calls_to, assigned_names
 
 INPUT_ERRORS = ["OSError", "EOFError", "dnaio.UnknownFileFormat", "dnaio.FileFormatError"]
 # class -> superclasses that a handler may name to catch it
@@ -144,7 +145,7 @@ def r2_sentinels(repo, report):
 
 
 def r3_exit(repo, report):
-    fn = repo.func("cli", "main")
+    fn = cli_main(repo)
     tries = [n for n in ast.walk(fn) if isinstance(n, ast.Try) and any("make_runner" in src(s) for s in n.body)]
     if len(tries) != 1:
         raise Unrecognised("main(): the try around make_runner/run not found", repo.loc(fn))
